@@ -56,6 +56,8 @@ AbsIsRootPlusRel ==
 ChildParentInverse ==
   c.kind = "U" => \A x \in {<<"a">>, <<"*">>, <<"a", ".", "b">>} : Parent(Child(P(c.s), x)) = P(c.s)
 RootIffEmpty == c.kind = "U" => (IsRoot(P(c.s)) <=> Rel(P(c.s)) = <<>>)
+\* descending by ANY string (several components, empty, slashes only) is the same as constructing the joined path
+ChildIsConcat == c.kind = "H" => Child(P(c.s), c.t) = P(c.s \o <<"/">> \o c.t)
 HookThree == c.kind = "H" => (HookMatch(Split(c.s), Split(c.t)) <=> HookThreeCases(Split(c.s), Split(c.t)))
 HookStarWholeComponentOnly ==
   c.kind = "H" => \A i \in DOMAIN Split(c.t) :
@@ -67,7 +69,9 @@ GlobComplete == c.kind = "G" => \A d \in c.tree.dirs : PatMatch(Split(c.s), d) =
 Result(k) ==
   IF k.kind = "U" THEN [kind |-> "U", s |-> k.s, parts |-> Split(k.s), rel |-> Rel(P(k.s)), abs |-> Abs(P(k.s)),
                         root |-> IsRoot(P(k.s))]
-  ELSE IF k.kind = "H" THEN [kind |-> "H", s |-> k.s, t |-> k.t, match |-> HookMatch(Split(k.s), Split(k.t))]
+  ELSE IF k.kind = "H" THEN [kind |-> "H", s |-> k.s, t |-> k.t, match |-> HookMatch(Split(k.s), Split(k.t)),
+                             childParts |-> Child(P(k.s), k.t).parts, childAbs |-> Abs(Child(P(k.s), k.t)),
+                             childRoot |-> IsRoot(Child(P(k.s), k.t))]
   ELSE [kind |-> "G", s |-> k.s, dirs |-> SetToSeq(k.tree.dirs), files |-> SetToSeq(k.tree.files),
         res |-> SetToSeq(Glob(k.tree.dirs, Split(k.s)))]
 
